@@ -175,6 +175,17 @@ func serveUnary(cfg envCfg, body *h.ChunkBody) (obs obsItem, rec *httptest.Respo
 		}, cfg.handlerOpts()...)
 	req := httptest.NewRequest(http.MethodPost, "/verif.Svc/Unary", nil)
 	req.Body = body
+	// half of the requests declare their length (what non-connect clients and proxies do;
+	// connect-go's own client streams the body and declares none)
+	total := 0
+	for _, c := range body.Chunks {
+		total += len(c)
+	}
+	req.ContentLength = -1
+	if total%2 == 0 && (body.Fin == h.FinCleanEOF || body.Fin == h.FinEOFWithData) {
+		req.ContentLength = int64(total)
+		req.Header.Set("Content-Length", fmt.Sprint(total))
+	}
 	req.Header.Set("Content-Type", cfg.contentType(true))
 	if cfg.Algo != "" {
 		req.Header.Set(cfg.encodingHeader(true), cfg.Algo)
